@@ -67,6 +67,39 @@ def _install_shims():
 
     core._PATCH_REGISTRATIONS[_lru_cache_wrapper.__call__] = core.with_realized_args(_lru_cache_wrapper.__call__)
 
+    # crosshair's isinstance(obj, C) is issubclass(type(obj), C): it never reads obj.__class__.  CPython's does when type(obj)
+    # is not a subclass of C (Objects/abstract.c object_isinstance), so code under test that asks isinstance() about an object
+    # whose __class__ lies (mock specs, lazy proxies) would behave differently under the engine than in a real interpreter.
+    # For objects of the harness (not engine proxies) the CPython rule is added on top of crosshair's answer.
+    import builtins
+
+    from crosshair.core import CrossHairValue, NoTracing
+
+    ch_isinstance = core._PATCH_REGISTRATIONS[builtins.isinstance]
+    ch_issubclass = core._PATCH_REGISTRATIONS[builtins.issubclass]
+
+    def _isinstance(obj, types):
+        r = ch_isinstance(obj, types)
+        if r is not False:
+            return r
+        with NoTracing():
+            if isinstance(obj, CrossHairValue) or isinstance(types, CrossHairValue):
+                return r
+            t = type(obj)
+        try:
+            icls = obj.__class__  # a full attribute access, as in CPython
+        except AttributeError:
+            return False
+        with NoTracing():
+            if icls is t or not type.__instancecheck__(type, icls):
+                return False
+            flat = types if type(types) is tuple else (types,)
+            if any(type(c) is not type for c in flat):  # ABCs / nested tuples / symbolic classes: crosshair's answer stands
+                return False
+        return ch_issubclass(icls, types)
+
+    core._PATCH_REGISTRATIONS[builtins.isinstance] = _isinstance
+
 
 def _solver_stats():
     import z3
@@ -209,7 +242,7 @@ def explore_shard(
                     res["paths"] += 1
                     res[verdict] += 1
                     res["decisions"] += len(space.choices_made)
-                    if verdict == "FAIL" or (verdict == "PASS" and len(res["samples"]) < max_samples):
+                    if verdict == "FAIL" or (verdict == "PASS" and len(res["samples"]) < max_samples and (res["PASS"] - 1) % 5 == 0):
                         # detach first: realisation must not grow the search tree (each realised
                         # symbol would otherwise fork the path and leave a sibling to explore)
                         with ResumedTracing():
@@ -280,7 +313,7 @@ def explore(
     """Run all shards of one harness over a process pool and merge the statistics."""
     procs = int(os.environ.get("VERIF_PROCS", "0") or 0) or procs
     deadline = time.time() + budget_s
-    every = max(1, len(shards) // 24)  # realise sample inputs in ~24 shards only
+    every = max(1, len(shards) // 48)  # realise sample inputs in ~48 shards only (every 5th passing path of those, up to max_samples)
     tasks = [(modname, fname, fx, deadline, per_path_timeout, twin, max_samples if i % every == 0 else 0, stop_on_fail, max_paths)
              for i, fx in enumerate(shards)]
     t0 = time.time()
